@@ -34,3 +34,7 @@ func init() {
 	}
 	registerReplay([]string{"(*dht/bep44.Wrapper).Put", "(*dht/bep44.Wrapper).Get"}, "bep44", "bep44/bep44_replay_test.go", "TestGovcReplayBep44")
 }
+
+func init() {
+	registerReplay([]string{"(*dht.Server).handleQuery"}, ".", "root/server_replay_test.go", "TestGovcReplayServer")
+}
